@@ -1,6 +1,6 @@
 SPECIFICATION MCSpec
 CONSTANTS
-  ProdKinds = {"val", "err", "exc", "drop"}
+  ProdKinds = {"val", "err", "exc", "drop", "thr_retry", "thr_drop"}
   ConsKinds = {"then_inline", "then_exec", "detach", "drop", "detach_inline", "detach_exec", "get", "get_const", "wait", "connect"}
 INVARIANTS PrintPaths
 CHECK_DEADLOCK FALSE
